@@ -8,6 +8,9 @@
 //! the state name, bytes written so far, bytes in the output buffer, buffered minus/plus
 //! lines, the ingested raw_line / line, and the regex facts about the line that the Lean
 //! model takes as given.
+//!
+//! `machine.ingest <line>` gives what `StateMachine::ingest_line` makes of one input line under
+//! the current Config: `ok <raw_line> <line>`; `machine.ingest_cfg` the two options it reads.
 use std::cell::RefCell;
 use std::io::Write;
 
@@ -115,6 +118,20 @@ pub fn handle(op: &str, args: &[&str]) -> Result<String, String> {
             let obs = OBS.with(|o| o.borrow().join(";"));
             Ok(format!("ok {out} {obs}"))
         }
+        // machine.ingest <line bytes>: `ingest_line` under the current Config -> `ok <raw_line> <line>`
+        "ingest" => match args {
+            [bytes] => {
+                let (raw_line, line) = StateMachine::verif_ingest_line(&unhexb(bytes)?, config());
+                Ok(format!("ok {} {}", hex(&raw_line), hex(&line)))
+            }
+            _ => Err("machine.ingest: one field expected".to_string()),
+        },
+        // machine.ingest_cfg: the two options `ingest_line` reads -> `ok <max_line_length> <truncation_symbol>`
+        "ingest_cfg" => Ok(format!(
+            "ok {} {}",
+            config().max_line_length,
+            hex(&config().truncation_symbol)
+        )),
         _ => Err(format!("unknown op: machine.{op}")),
     }
 }
